@@ -1,23 +1,38 @@
 #!/bin/sh
-# audit_seeds.sh [ids...] : runs the quick check of the target property against every seeded change (on a scratch
-# worktree, own scratch and evidence directories) and writes /verif/seeded/AUDIT.txt. ~1 minute per seeded change.
+# audit_seeds.sh [-j N] [ids...] : runs the quick check of the target property against every seeded change (each on its
+# own scratch worktree with its own scratch and evidence directories, N at a time; default 4) and writes
+# /verif/seeded/AUDIT.txt. ~1-1.5 minutes per seeded change and job.
 cd /verif
+jobs=4
+if [ "$1" = "-j" ]; then jobs=$2; shift 2; fi
 ids=${@:-$(ls seeded | grep '^S-')}
-export VERIF_WORKDIR=/verif/.work/audit VERIF_EVIDENCE_DIR=/verif/.work/audit_evidence
-mkdir -p $VERIF_WORKDIR $VERIF_EVIDENCE_DIR
+mkdir -p /verif/.work/audit
 out=/verif/seeded/AUDIT.txt
-: > $out.tmp
-for id in $ids; do
+one() {
+  id=$1
   prop=$(python3 -c "import json;print(json.load(open('/verif/seeded/$id/meta.json'))['breaks_property'])")
-  wt=/tmp/wt_audit_$$
-  git -C /repo worktree add -q --detach $wt HEAD || exit 2
+  wt=/tmp/wt_audit_$id
+  git -C /repo worktree add -q --detach $wt HEAD || { echo "$id $prop worktree-failed"; return; }
   if git -C $wt apply /verif/seeded/$id/patch.diff 2>/dev/null; then
-    IOOS_QC_TREE=$wt ./vcheck $prop --tier quick > $VERIF_WORKDIR/audit_$id.log 2>&1
+    VERIF_WORKDIR=/verif/.work/audit/w_$id VERIF_EVIDENCE_DIR=/verif/.work/audit/e_$id IOOS_QC_TREE=$wt \
+      ./vcheck $prop --tier quick > /verif/.work/audit/audit_$id.log 2>&1
     rc=$?
-    echo "$id $prop rc=$rc violations=$(grep -c '^VIOLATION' $VERIF_WORKDIR/audit_$id.log)" | tee -a $out.tmp
+    echo "$id $prop rc=$rc violations=$(grep -c '^VIOLATION' /verif/.work/audit/audit_$id.log)"
   else
-    echo "$id $prop patch-does-not-apply" | tee -a $out.tmp
+    echo "$id $prop patch-does-not-apply"
   fi
-  git -C /repo worktree remove --force $wt >/dev/null 2>&1; git -C /repo worktree prune
+  git -C /repo worktree remove --force $wt >/dev/null 2>&1
+  rm -rf /verif/.work/audit/w_$id /verif/.work/audit/e_$id
+}
+: > $out.tmp
+n=0
+for id in $ids; do
+  one $id >> $out.tmp &
+  n=$((n + 1))
+  if [ $((n % jobs)) -eq 0 ]; then wait; fi
 done
-mv $out.tmp $out
+wait
+git -C /repo worktree prune
+sort $out.tmp > $out; rm -f $out.tmp
+grep -c "rc=1" $out | sed 's/^/reported: /'
+grep -v "rc=1" $out
